@@ -120,6 +120,14 @@ func (e *ledgerEngine) step(ws []string) string {
 		n, _ := new(big.Int).SetString(ws[2], 10)
 		l.SetBalance(lAddr(ws[1]), n)
 		return "ok"
+	case "addbal": // addbal <acct> <signed delta>: AddBalance / SubBalance (the delta paths of the EVM and of the role contract)
+		n, _ := new(big.Int).SetString(ws[2], 10)
+		if n.Sign() >= 0 {
+			l.AddBalance(lAddr(ws[1]), n)
+		} else {
+			l.SubBalance(lAddr(ws[1]), new(big.Int).Neg(n))
+		}
+		return "ok"
 	case "nonce":
 		return fmt.Sprint(l.GetNonce(lAddr(ws[1])))
 	case "setnonce":
